@@ -180,6 +180,24 @@ def run(ctx):
                             nxt = prog.fn(nd.get("callee"))
                 cur = nxt
             vcells += 1
+            # the other form: std::visit dispatches on the held alternative - every alternative is covered by construction. It throws
+            # std::bad_variant_access for a variant without a value (equal to every other such variant, so it has to hash, too): the
+            # call is only reached under !valueless_by_exception(), and every instantiation of the visitor combines hash(alternative)
+            visits = [(bid, nd) for bid, i, e in f.roots() for nd in walk(e["expr"]) if nd.get("k") == "call" and (nd.get("name") or "") == "std::visit"]
+            if not seq and len(visits) == 1:
+                vb, vn = visits[0]
+                pn = f.params[0]["name"]
+                guarded = bool(cfg.dominated_by_edge(f, vb, lambda c, pn=pn: fmt(c) == "%s.valueless_by_exception()" % pn, label="false"))
+                ctx.check(guarded, "R16.3", f, "visit-not-on-valueless:variant<%d>" % n, "hash(variant) reaches std::visit without `!%s.valueless_by_exception()`: a variant that lost its value in a throwing assignment "
+                          "still compares equal to another such variant, but hashing it throws std::bad_variant_access (insert / find in an unordered container fail)" % pn, (f, vn.get("ln")))
+                lam = ir.unwrap(vn["args"][0]) if vn.get("args") else None
+                bodies = [prog.fn(b) for b in (lam.get("bodies") or [])] if isinstance(lam, dict) and lam.get("k") == "lambda" else []
+                okb = len(bodies) == n and all(b is not None and b.has_cfg and any(
+                    nd.get("k") == "call" and (nd.get("name") or "").endswith("hash_combine_impl") and len(nd.get("args", [])) == 2 and fmt(ir.unwrap(nd["args"][1])) == "hash(%s)" % b.params[0]["name"]
+                    for _, _, e in b.roots() for nd in walk(e["expr"])) for b in bodies)
+                ctx.check(okb, "R16.3", f, "census:variant<%d>" % n, "the visitor of hash(variant) has %d instantiation(s) for %d alternatives, or one of them does not combine hash(alternative) into the seed" % (len(bodies), n), (f, vn.get("ln")),
+                          why_ok="std::visit over %d alternatives, each combined" % n)
+                continue
             ctx.check(seq == list(range(n)), "R16.3", f, "census:variant<%d>" % n, "hash of a %d-alternative variant probes alternatives %s (expected %s)" % (n, seq, list(range(n))), f)
     ctx.need("R16.3", "variant hash instantiations", vcells, 1)
 
